@@ -6,6 +6,7 @@ import Driver.Spork
 import Driver.Pool
 import Driver.Rewards
 import Driver.Consensus
+import Driver.Abi
 /-
 One line per handler object. The first handler that understands a line answers it.
 -/
@@ -24,7 +25,9 @@ def registry : List Obj := [
   pureObj pureTicker,
   pureObj pureBeforeTime,
   pureObj pureMverify,
-  pureObj pureAddMomentum
+  pureObj pureAddMomentum,
+  pureObj pureAbi,
+  pureObj pureArRecv
 ]
 
 end ZV.Driver
